@@ -323,8 +323,20 @@ fn two64() -> Integer {
     Integer::from(1) << 64
 }
 
+/// "reveals nothing": the estimate `q` is at least 2^64 away from the secret (the property's inequality) AND, for a
+/// long secret, does not agree with it in its leading 48 bits either -- an estimate off by 2^386 of a 1023-bit opening
+/// randomness satisfies the first condition and still hands over 600 of its bits. (Honest masking makes q exceed x by
+/// a factor 2^80; a quotient of unrelated values agrees with x in 48 leading bits with probability 2^-48.)
 fn far(q: &Integer, x: &Integer) -> bool {
-    Integer::from(q - x).abs() >= two64()
+    let d = Integer::from(q - x).abs();
+    if d < two64() {
+        return false;
+    }
+    let ax = x.clone().abs();
+    if ax.significant_bits() >= 160 {
+        return Integer::from(&d << 48u32) >= ax;
+    }
+    true
 }
 
 
